@@ -44,12 +44,23 @@ type Preset struct {
 	MinGenesisActive, MinGenesisTime, GenesisDelay               uint64
 	MaxPerEpochActivationChurnLimit                              uint64
 	SyncCommitteeSize                                            uint64
+	MaxValidatorsPerCommittee                                    uint64 // 0 = 32
 }
 
 func T4(forks [5]uint64) *Preset {
 	return &Preset{Name: "T4", SPE: 4, Validators: 16, MaxCommitteesPerSlot: 2, TargetCommitteeSize: 2, ForkEpochs: forks,
 		EjectionBalance: 16_000_000_000, MinChurn: 2, ChurnQuotient: 8, SyncCommitteeSize: 8, MaxPerEpochActivationChurnLimit: 2,
 		MinGenesisActive: 4, MinGenesisTime: 1000, GenesisDelay: 100}
+}
+
+// TAgg: committees of 32 and sync subcommittees of 32, so that aggregator selection (modulo 2 for
+// both committee kinds) really selects: about half of the members are aggregators (C12).
+func TAgg(forks [5]uint64) *Preset {
+	p := T4(forks)
+	p.Name, p.Validators, p.MaxCommitteesPerSlot, p.TargetCommitteeSize, p.SyncCommitteeSize = "TAgg", 128, 1, 32, 128
+	p.MinGenesisActive = 64
+	p.MaxValidatorsPerCommittee = 44 // committees of 32 stay below the limit (a bitlist at a limit that is a multiple of 8 is the recorded ztyp finding of C04)
+	return p
 }
 
 var AllForks = [5]uint64{0, 1, 2, 3, 4}
@@ -61,6 +72,9 @@ func (p *Preset) Spec() *common.Spec {
 	s.MAX_COMMITTEES_PER_SLOT = u(p.MaxCommitteesPerSlot)
 	s.TARGET_COMMITTEE_SIZE = u(p.TargetCommitteeSize)
 	s.MAX_VALIDATORS_PER_COMMITTEE = u(32)
+	if p.MaxValidatorsPerCommittee != 0 {
+		s.MAX_VALIDATORS_PER_COMMITTEE = u(p.MaxValidatorsPerCommittee)
+	}
 	s.SHUFFLE_ROUND_COUNT = 3
 	s.HYSTERESIS_QUOTIENT, s.HYSTERESIS_DOWNWARD_MULTIPLIER, s.HYSTERESIS_UPWARD_MULTIPLIER = 4, 1, 5
 	s.MIN_DEPOSIT_AMOUNT, s.MAX_EFFECTIVE_BALANCE, s.EFFECTIVE_BALANCE_INCREMENT = 1_000_000_000, 32_000_000_000, 1_000_000_000
